@@ -235,3 +235,14 @@ def run(ctx):
     ]
     ctx.extra["rule"] = ("edges: every transition of SpanState.tla for the listed configs; random: seeded span programs; "
                          "a case is distinct by (limits, operation sequence)")
+    # X02: inductive proof (Apalache, symbolic constants) of the parameterised core C this spec generalises -- thorough tier,
+    # evidence only: nothing in here can change the verdict or the exit code of this check (see checks/inductive.py)
+    if thorough:
+        try:
+            import importlib.util as _ilu
+            _s = _ilu.spec_from_file_location("verif_inductive", os.path.join(os.path.dirname(os.path.abspath(__file__)), "inductive.py"))
+            _m = _ilu.module_from_spec(_s)
+            _s.loader.exec_module(_m)
+            ctx.extra["inductive"] = _m.run_inductive(ctx, ["C"], budget_s=600)
+        except Exception as _e:  # never a verdict
+            ctx.extra["inductive"] = {"_error": repr(_e)}
